@@ -106,6 +106,13 @@ c.ensures('others-untouched', lambda c: And(
     unchanged_field(c.pre, c.cur, '$cancel_req', lambda o: o == c.a.self),
     unchanged_field(c.pre, c.cur, '$cancel_vt', lambda o: o == c.a.self)))
 
+c = contract('Task.exception', None, kind='env').param('self').returns('ref')
+c.assumed = ['E4b: Task.exception() of a task that finished with an exception returns that exception and changes no state '
+             'the package reads (it only marks the exception as retrieved)']
+c.requires('finished-with-an-exception', lambda c: And(tstate(c.pre, c.a.self) == S_FINISHED,
+                                                       truthy(c.pre.f('_exception', c.a.self))))
+c.ensures('the-exception', lambda c: c.result == c.pre.f('_exception', c.a.self))
+
 # ---------------------------------------------------------------- E2: asyncio.create_task
 L.register_ghost('$wjob', z3.ArraySort(Ref, Ref))     # task -> job whose `wrapped` it runs (None otherwise)
 L.register_ghost('$shut', z3.ArraySort(Ref, L.I))     # job -> number of co_shutdown tasks created for it
